@@ -41,6 +41,8 @@ def do_call(obj, call):
             elif o[0] == "tell":
                 r = obj.tell()
         return r
+    if op == "members":
+        return obj.members()
     if op == "parse_line":
         return obj.parse_line(call[1])
     if op == "stream_step":
@@ -85,6 +87,10 @@ def main():
     if "raises" in exp:
         print(f"MISMATCH returned normally (expected {exp['raises']})")
         return 1
+    if "members" in exp:
+        ok = [list(x) for x in res] == exp["members"]
+        print(f"{'MATCH' if ok else 'MISMATCH'} members {res} expected {exp['members']}")
+        return 0 if ok else 1
     if exp.get("assembly"):
         got, want, size_ok = res
         ok = size_ok and got[: len(want)] == want and len(got) >= len(want)
